@@ -454,7 +454,7 @@ namespace
       const std::string fmt = fmt_name(cur->key.fmt);
       const bool inplace = cur->key.fmt == F_DENSE && c.rng.coin(0.3);
       const std::string op = fmt + (inplace ? ".transpose_inplace" : ".transpose");
-      const int variant = int(c.rng.below(3));
+      const int variant = int(c.rng.below(7));
       refresh(op, vh::J().kv("op", op).kv("variant", variant).str());
       Truth t = truth.transposed();
       if(inplace)
